@@ -19,6 +19,8 @@ struct Caller {
     arrive_us: u64,
     lat_us: u64,
     fail: bool,
+    /// 0 = no panic, 1 = the inner call's future panics, 2 = the inner `Service::call` itself panics
+    panic: u8,
     pause: bool,
     drop_at_us: Option<u64>,
 }
@@ -73,6 +75,7 @@ pub fn gen(rng: &mut Prng, focus_half_open: bool) -> Cfg {
             arrive_us,
             lat_us,
             fail,
+            panic: if rng.chance(0.06) { 1 + rng.below(2) as u8 } else { 0 },
             pause: rng.chance(0.25),
             drop_at_us: if rng.chance(0.1) { Some(arrive_us + rng.below(5) * 5000) } else { None },
         });
@@ -129,7 +132,7 @@ pub fn run(cfg: &Cfg, seed: u64) -> (std::sync::Arc<crate::world::World>, crate:
             });
             sim.start_at(*at, a);
         }
-        let mk_req = |i: usize, c: &Caller| Req::new(i as u64 + 1, 0, vec![Step { lat: Lat::Us(c.lat_us), out: if c.fail { Out::Err(1) } else { Out::Ok } }]);
+        let mk_req = |i: usize, c: &Caller| Req::new(i as u64 + 1, 0, vec![Step { lat: Lat::Us(c.lat_us), out: match c.panic { 1 => Out::Panic, 2 => Out::PanicInCall, _ if c.fail => Out::Err(1), _ => Out::Ok } }]);
         if cfg.fallback {
             let w4 = w.clone();
             let svc = cb.with_fallback(move |req: Req| -> BoxFuture<'static, Result<Resp, PErr>> {
@@ -354,7 +357,10 @@ pub fn judge(which: &str, cfg: &Cfg, log: &[Rec]) -> Report {
                 }
             }
             Ev::ActorPanic { req, msg } => {
-                rep.violate(format!("{which}:{wt}:library-panic"), format!("r{req}: {msg}"));
+                // the scripted panics of the wrapped service pass through; anything else is the library's
+                if !msg.contains("probe: scripted panic") {
+                    rep.violate(format!("{which}:{wt}:library-panic"), format!("r{req}: {msg}"));
+                }
             }
             _ => {}
         }
